@@ -158,8 +158,12 @@ def check_cl(out, seed, n):
     from harness import curves_common as CC
     # every third plan: two recessions start from exactly the same highest level (a tie for the reference interval),
     # with noise on the later samples (without it the tied pieces are congruent and have the same offset)
-    check_cl_plans([CC.make_plan(C.rng_for(seed, PROP, 'cl', k), tie_top=(k % 3 == 1), noise=(k % 3 == 1))
-                    for k in range(n)], out)
+    plans = [CC.make_plan(C.rng_for(seed, PROP, 'cl', k), tie_top=(k % 3 == 1), noise=(k % 3 == 1)) for k in range(n)]
+    # records whose highest level is positive and off the grid lines, the top grid level crossed by >= 2 rises and
+    # >= 2 recessions (the last level of discrete_zeta carries part of the master curve); own random streams
+    plans += [CC.make_plan(C.rng_for(seed, PROP, 'cl-top', k), top_cell=True, noise=(k % 2 == 0),
+                           grid_step=CC.GRID_STEPS[k % len(CC.GRID_STEPS)]) for k in range(max(4, n // 3))]
+    check_cl_plans(plans, out)
 
 
 def check_cl_plans(plans, out):
@@ -169,9 +173,15 @@ def check_cl_plans(plans, out):
         out.evaluations += 1
         out.count('CL:' + r['status'])
         out.count('CL:two recessions from the same highest level=%s' % bool(plan.get('tie_top')))
+        if plan.get('top_cell'):
+            out.count('CL:highest level positive and off the grid lines, top grid level crossed by >= 2 rises and >= 2 recessions')
         if r['status'] != 'ok':
             continue
         case = dict(level='CL', plan=r['plan'])
+        # the master curve the residuals are taken against is the one the views show: it must be the level means
+        # of (offset + crossing) over the rows of the tables, at every level the aligned intervals cross
+        for msg in CC.view_table_complaints(r):
+            out.violation('oracle', 'master curve (view) <> tables written by rise/recession: ' + msg, case=case)
         for kind in ('rising', 'recession'):
             offs, zeta = r[kind + '_interval'], r[kind + '_interval_zeta']
             if not offs:
@@ -214,7 +224,8 @@ def run(ctx, out):
                 'one decreasing curve, 2/3 of them with two or three intervals starting from exactly the same highest '
                 'level) through get_series_time_offsets, the returned (indices, offsets, mapping) checked; CL: synthetic '
                 'datasets through the CLI up to rise/recession (1/3 with two recessions starting from exactly the same '
-                'highest level). Non-trivial: FL >= 3 intervals and a level crossed by >= 3 of them; FLS a tie for the '
+                'highest level; plus records whose highest level is positive and off the grid lines with the top grid '
+                'level crossed by >= 2 rises and >= 2 recessions; the master-curve views compared with the tables). Non-trivial: FL >= 3 intervals and a level crossed by >= 3 of them; FLS a tie for the '
                 'highest initial level among >= 3 included intervals; CL >= 3 intervals; distinct by mapping / series / intervals.')
     out.samples = [dict(level='FL', mapping={str(h): s for h, s in cases[0][0].items()})]
     out.assumptions += ['numpy.linalg.solve in binary64 agrees with the exact solution within 1e-9*(1+max|t|) on the '
